@@ -422,9 +422,10 @@ static int types_equal(const wr_functype *a, const wr_functype *b) {
     return a->np == b->np && a->nr == b->nr && memcmp(a->params, b->params, a->np) == 0 && memcmp(a->results, b->results, a->nr) == 0;
 }
 
-static int mem_grow(wr_memory *mem, uint32_t delta, uint32_t *old) {
+static int mem_grow(wr_memory *mem, uint32_t delta, uint32_t *old, uint32_t cap) {
     uint64_t np = (uint64_t)mem->pages + delta; uint64_t lim = mem->hasmax ? mem->maxpages : 65536u;
     if (lim > 65536u) lim = 65536u;
+    if (cap && lim > cap) lim = cap;
     if (np > lim) return 0;
     *old = mem->pages;
     if (delta) {
@@ -539,7 +540,7 @@ static int invoke(wr_instance *in, uint32_t func, const rval *args, rval *res) {
             case 0x24: { uint32_t i = rd_u32(&r); rval v = POP(); if (v.nd) in->tainted = 1; in->globals[i]->v = v; break; }
             case 0x3f: { rval v; (void)rd_u8(&r); v.type = VT_I32; v.nd = 0; v.bits = in->mems[0]->pages; PUSH(v); break; }
             case 0x40: { rval d, v; uint32_t old = 0; (void)rd_u8(&r); d = POP(); if (d.nd) in->tainted = 1; v.type = VT_I32; v.nd = 0;
-                         v.bits = mem_grow(in->mems[0], (uint32_t)d.bits, &old) ? old : 0xffffffffu; PUSH(v); break; }
+                         v.bits = mem_grow(in->mems[0], (uint32_t)d.bits, &old, in->env.page_cap) ? old : 0xffffffffu; PUSH(v); break; }
             case 0x41: { rval v; v.type = VT_I32; v.nd = 0; v.bits = (uint32_t)rd_sleb(&r, 32); PUSH(v); break; }
             case 0x42: { rval v; v.type = VT_I64; v.nd = 0; v.bits = (uint64_t)rd_sleb(&r, 64); PUSH(v); break; }
             case 0x43: { rval v; uint32_t b = 0; int j; for (j = 0; j < 4; j++) b |= (uint32_t)rd_u8(&r) << (8 * j); v.type = VT_F32; v.nd = 0; v.bits = b; PUSH(v); break; }
